@@ -560,12 +560,17 @@ pub fn interop<S: Sch>(rec: &mut Rec) {
 
 /// Prepared keys and commitments are tables of successive doublings.
 pub fn prepared(rec: &mut Rec) {
-    let id = "KZG/prepared".to_string();
+    for cfg in [KeyCfg::uni(5, 4, 1, Some(vec![2, 4])), KeyCfg::uni(5, 4, 1, None), KeyCfg::uni(3, 3, 1, Some(vec![0, 3])), KeyCfg::uni(6, 2, 1, Some(vec![2])), KeyCfg::uni(4, 3, 2, Some(vec![]))] {
+        prepared_for(rec, cfg);
+    }
+}
+
+fn prepared_for(rec: &mut Rec, cfg: KeyCfg) {
+    let id = format!("KZG/prepared/{}", cfg.id());
     if !rec.take(&id) {
         return;
     }
     rec.dim("scheme", "MAR");
-    let cfg = KeyCfg::uni(5, 4, 1, Some(vec![2, 4]));
     let keys = match build_keys::<SMar>(&cfg, rec.seed) {
         Ok(k) => k,
         Err(_) => return,
@@ -592,7 +597,8 @@ pub fn prepared(rec: &mut Rec) {
         _ => ok = false,
     }
     let r = rho_stream::<Fr381>(rec.seed, 1, 4);
-    let p = lp::<SMar>("p", UP::<Fr381>::from_coefficients_slice(&r[..3]), Some(2), None);
+    let b = cfg.bounds.as_ref().and_then(|b| b.iter().copied().filter(|d| *d >= 2).min());
+    let p = lp::<SMar>("p", UP::<Fr381>::from_coefficients_slice(&r[..3]), b, None);
     if let Ok((c, _)) = do_commit::<SMar>(&keys.ck, &[p], None) {
         let cm = c[0].commitment();
         let pc = kzg10::PreparedCommitment::<E381>::prepare(&cm.comm);
